@@ -4,9 +4,11 @@ package hlib
 
 import (
 	"bufio"
+	"bytes"
 	"encoding/json"
 	"flag"
 	"fmt"
+	"io"
 	"math/rand"
 	"os"
 	"sort"
@@ -290,4 +292,18 @@ func B2i(b bool) int64 {
 		return 1
 	}
 	return 0
+}
+
+// WriteVia sends data to w in one of the ways handlers and proxies do: w.Write, io.WriteString (which uses a
+// WriteString method when the writer has one) or io.Copy from a plain reader (which uses a ReadFrom method when the
+// writer has one). All three must be equivalent for any http.ResponseWriter.
+func WriteVia(w io.Writer, data []byte, how int) {
+	switch ((how % 3) + 3) % 3 {
+	case 0:
+		_, _ = w.Write(data)
+	case 1:
+		_, _ = io.WriteString(w, string(data))
+	default:
+		_, _ = io.Copy(w, struct{ io.Reader }{bytes.NewReader(data)})
+	}
 }
